@@ -104,4 +104,10 @@ CHECKS["C07"] = {
     "text": "(a) 81 parameter points x {2,3}(,5) dimensions x c4 x inner product x entry point {nonlinear_solve, nonlinear_solve_with_state} x slots {guess, bc, state, design, time} x every basis cotangent: reverse-mode result equals -v'H^-1 G_k from a numpy reference (dense Newton solution, closed-form H and G_k cross-checked against jacfwd of the raw energy); an exception while differentiating is a violation. (b) all load-step chains of length <=3 (4) over 3 actions with path-dependent state: total derivative through the chained rules vs the forward chain rule. (c) MechanicsInverse helper VJPs (residual / state update w.r.t. coordinates, displacements, previous state) for Neohookean and J2 (elastic, yielding, mixed) vs dense jacfwd of an independently composed map, every cotangent; adjoint function space identical to the one built on the moved mesh for every single-node perturbation. 39k evaluations quick / 115k thorough. Found and fixed the stale-signature TypeError in both reverse rules.",
     "note": SHIM + "Hessian SPD on the alphabet (kappa<=130); settings tol=1e-11, cg_inexact_solve_ratio=1e-12 so the adjoint solve is tight; plane strain helpers only (axisymmetric raises NotImplementedError in the library)",
 }
+CHECKS["C05"] = {
+    "engine": "E-DEV + E-PROD",
+    "technique": "deviation-bounded enumeration of SPG solver configurations x (objective x all 5^n box types x placements x feasible starts), trajectory monitor; exhaustive lattice for the projections",
+    "text": "objective spectra x all 25 per-coordinate bound-type combinations {free, lower, upper, two-sided, lower==upper} x 3 placements of the unconstrained minimiser {outside, inside, exactly on a face} x feasible starts on vertices / faces / centre x every configuration with at most k non-default axes of 8 (monotone/non-monotone line search, radii, iteration caps, incremental mode, tolerance, entry point with/without warm start), each run of the real bound_constrained_trust_region_minimize / solve to completion with every reported iterate checked: within bounds (8 ulp of the trajectory scale), exact descent in the solver's own evaluation, honest flag by a reference projected gradient, box-QP minimiser by enumeration of all 3^n active sets; plus project / project_onto_tr on a lattice of points x boxes x radii 1e-6..1e6 (132k cases). 15.6k solver runs / 280k steps quick. Open finding D13 (convergence test on the unaccepted trial point).",
+    "note": SHIM + "quick: 4 of 6 spectra, n=2, k=1 on the full box product and k=2 on the reduced one; thorough: all spectra, n=3, k=2/3; RuntimeError('No acceptable Cauchy point') exits and horizon overruns counted, not violations; warm-start entry skipped where the Hessian at the start is not positive definite (premise of the warm start)",
+}
 NOT_APPLICABLE_REASON = {}
